@@ -1176,6 +1176,36 @@ func runQueries(ctx context.Context, c *ctxInfo, r *rec.Rand) {
 	}
 }
 
+// runWitness replays the witnesses of Props/C14.v malformed_token_rejected_refuted (finding F5) on
+// the real memory backend: five tuples, page size 2, tokens "99|" and "-1|".
+func runWitness(ctx context.Context, w *rec.Writer, seed uint64, tier string) {
+	d := &dataset{idx: -1}
+	for i := 0; i < 5; i++ {
+		t := tup{"doc:" + strconv.Itoa(i), "viewer", "user:anne"}
+		d.ops = append(d.ops, op{writes: []tup{t}})
+		d.tuples = append(d.tuples, t)
+		d.changes = append(d.changes, change{0, t})
+	}
+	b := &backend{kind: 0, ds: memory.New()}
+	defer b.close()
+	if err := load(ctx, b, d); err != nil {
+		panic(err)
+	}
+	c := &ctxInfo{seed: seed, tier: tier, ds: -1, b: b, d: d, w: w}
+	learnUlids(ctx, c)
+	for i, t := range d.tuples {
+		c.allTu = append(c.allTu, row{"", i, t.key()})
+	}
+	q := query{api: apiRead}
+	rows := readRows(b, d, nil)
+	traverse(ctx, c, q, rows, 2)
+	single(ctx, c, q, rows, 2, b64("99|"), "F5-witness")
+	single(ctx, c, q, rows, 2, b64("-1|"), "F5-witness")
+	single(ctx, c, q, rows, 2, b64("4|"), "F5-contrast-in-range")
+	single(ctx, c, q, rows, 2, b64("5|"), "F5-contrast-in-range")
+	w.Stat("witness_scenarios", 1)
+}
+
 func main() {
 	o := rec.ParseFlags()
 	w := rec.NewWriter(o.Out)
@@ -1219,6 +1249,10 @@ func main() {
 				continue
 			}
 			done[k] = true
+			if k.ds < 0 {
+				runWitness(ctx, w, k.seed, tier)
+				continue
+			}
 			mi, ms := 60, 60
 			if tier == "thorough" {
 				mi, ms = 300, 120
@@ -1233,6 +1267,7 @@ func main() {
 		}
 		return
 	}
+	runWitness(ctx, w, o.Seed, o.Tier)
 	r := rec.NewRand(o.Seed)
 	for i := 0; i < o.N; i++ {
 		runDataset(ctx, w, o.Seed, o.Tier, i, r.Fork(), maxItems, maxSmall, -1)
